@@ -5,6 +5,8 @@
 //! connection whose outgoing plaintext is overwritten by the crypto tap just before sealing; (c)
 //! hostile-but-well-formed transport parameters announced through the real TLS session.
 
+use std::collections::BTreeMap;
+
 use quinn_proto::{ConnectionError, Event, Side};
 
 use crate::chooser::Chooser;
@@ -1150,6 +1152,189 @@ fn fam_params(ch: Chooser, ctx: &RunCtx) -> RunOut {
     o
 }
 
+// ------------------------------------------------------------------------------------------
+// pending-incoming: a server application that is slow to decide about connection attempts
+// ------------------------------------------------------------------------------------------
+
+const TAG_DECIDE: u64 = TAG_USER + (9 << 30);
+
+/// Many clients connect at once to a server whose application takes its time to accept, refuse,
+/// ignore or retry each attempt, with tiny limits on how many attempts may be pending and on how
+/// much may be buffered for them. Judged: the limits hold at every step, everything buffered is
+/// released once the attempts are decided, attempts that are accepted (however late) complete
+/// their workload, nothing else is disturbed.
+struct PendScen {
+    b: Basic,
+    limits: (usize, u64, u64),
+    /// (index into w.waiting, client connection, decision) of undecided attempts
+    pending: Vec<(usize, u32, u8)>,
+    /// what the application does with the attempts of one client connection — the same every
+    /// time (0 accept, 1 demand a Retry first, 2 refuse, 3 ignore): an application that answered
+    /// one Initial with a Retry and accepted a retransmission of the same Initial without one
+    /// would create a second, orphaned connection all by itself
+    policy: BTreeMap<u32, u8>,
+    wait_rate: u32,
+    max_pending_seen: usize,
+    max_buffered_seen: u64,
+}
+
+impl PendScen {
+    fn excuse(&mut self, client_inc: u32) {
+        if client_inc != NO_INC {
+            self.b.wl.unchecked.insert(client_inc);
+        }
+    }
+
+    fn decide(&mut self, w: &mut World, origin: u32, decision: u8) -> IncomingAction {
+        match decision {
+            1 => {
+                w.faults.hit("attempt_retried");
+                IncomingAction::Retry
+            }
+            2 => {
+                self.excuse(origin);
+                w.faults.hit("attempt_refused");
+                IncomingAction::Refuse
+            }
+            3 => {
+                // (the client keeps knocking and never gets anywhere)
+                self.excuse(origin);
+                w.faults.hit("attempt_ignored");
+                IncomingAction::Ignore
+            }
+            _ => IncomingAction::Accept,
+        }
+    }
+}
+
+impl Scenario for PendScen {
+    fn on_incoming(&mut self, w: &mut World, node: u32, incoming: &quinn_proto::Incoming, dgram: u32) -> IncomingAction {
+        if self.pending.len() >= self.limits.0 {
+            w.violate("pending-incoming-beyond-max-incoming", format!("a connection attempt was surfaced while {} attempts were pending; max_incoming is {}", self.pending.len(), self.limits.0));
+            return IncomingAction::Ignore;
+        }
+        let origin = w.dgrams.get(dgram as usize).map_or(NO_INC, |d| d.origin_inc);
+        let pol = match self.policy.get(&origin) {
+            Some(p) => *p,
+            None => {
+                let p = match w.ch.choose("c03.pend.policy", 10) {
+                    0..=5 => 0,
+                    6 => 1,
+                    7 | 8 => 2,
+                    _ => 3,
+                };
+                self.policy.insert(origin, p);
+                p
+            }
+        };
+        let decision = if pol == 1 && (incoming.remote_address_validated() || !incoming.may_retry()) { 0 } else { pol };
+        // (the application dawdles only while the fault phase lasts: a pending slot that is
+        // occupied whenever a starved client's ever rarer retransmission arrives is overload by
+        // configuration, not something the endpoint could do anything about)
+        if w.now < self.b.fault_end && w.ch.chance("c03.pend.wait", self.wait_rate, 1000) {
+            let idx = w.waiting.len();
+            self.pending.push((idx, origin, decision));
+            self.max_pending_seen = self.max_pending_seen.max(self.pending.len());
+            let d = w.ch.range_log("c03.pend.delay_us", 0, 3_000_000) * 1000;
+            w.wake_in(d, TAG_DECIDE + idx as u64);
+            w.faults.hit("accept_decision_deferred");
+            return IncomingAction::Wait;
+        }
+        let _ = node;
+        self.decide(w, origin, decision)
+    }
+    fn on_accepted(&mut self, w: &mut World, inc: u32, dgram: u32) {
+        self.b.on_accepted(w, inc, dgram)
+    }
+    fn on_accept_failed(&mut self, w: &mut World, _node: u32, dgram: u32, _err: &ConnectionError) {
+        let origin = w.dgrams.get(dgram as usize).map_or(NO_INC, |d| d.origin_inc);
+        self.excuse(origin);
+    }
+    fn on_event(&mut self, w: &mut World, inc: u32, ev: Event) {
+        self.b.on_event(w, inc, ev)
+    }
+    fn on_wake(&mut self, w: &mut World, tag: u64) {
+        if tag >= TAG_DECIDE && tag < TAG_DECIDE + (1 << 20) {
+            let idx = (tag - TAG_DECIDE) as usize;
+            let Some(pos) = self.pending.iter().position(|p| p.0 == idx) else { return };
+            let (_, origin, decision) = self.pending.remove(pos);
+            let Some(wt) = w.waiting[idx].take() else { return };
+            w.faults.hit("pending_attempt_decided_late");
+            let act = self.decide(w, origin, decision);
+            w.resolve_incoming(wt.node, wt.incoming, wt.dgram, act, self);
+        } else {
+            self.b.on_wake(w, tag)
+        }
+    }
+    fn after_step(&mut self, w: &mut World) {
+        self.b.after_step(w);
+        let buffered = w.nodes[self.b.server as usize].ep.incoming_buffer_bytes();
+        self.max_buffered_seen = self.max_buffered_seen.max(buffered);
+        if buffered > self.limits.2 {
+            w.violate("incoming-buffers-beyond-total-limit", format!("{} bytes are buffered for pending connection attempts; incoming_buffer_size_total is {}", buffered, self.limits.2));
+        } else if buffered > self.limits.1 * self.pending.len() as u64 {
+            w.violate("incoming-buffers-beyond-per-attempt-limit", format!("{} bytes are buffered for {} pending connection attempts; incoming_buffer_size is {}", buffered, self.pending.len(), self.limits.1));
+        }
+    }
+    fn on_quiescent(&mut self, w: &mut World) {
+        self.b.on_quiescent(w)
+    }
+    fn done(&self, w: &World) -> bool {
+        self.pending.is_empty() && self.b.done(w)
+    }
+}
+
+fn fam_pending(ch: Chooser, ctx: &RunCtx) -> RunOut {
+    let mut w = World::from_ctx(ch, ctx);
+    let mut opts = BasicOpts { streams_max: 2, size_max: 4000, ..Default::default() };
+    opts.n_clients = 2 + w.ch.choose("c03.pend.clients", 7);
+    opts.conns_per_client = 1 + w.ch.choose("c03.pend.conns", 2);
+    opts.idle_off = true;
+    opts.ops_max = 0;
+    opts.allow_corrupt = false;
+    opts.max_drop = 100;
+    opts.fault_phase_max_ms = 1500;
+    opts.cid_len_choices = vec![8, 8, 4, 20];
+    let limits = (
+        *w.ch.pick("c03.pend.max_incoming", &[2usize, 1, 3, 5, 1 << 16]),
+        *w.ch.pick("c03.pend.buffer", &[2400u64, 0, 1199, 1200, 5000, 10 << 20]),
+        *w.ch.pick("c03.pend.buffer_total", &[3000u64, 0, 1200, 6000, 100 << 20]),
+    );
+    opts.incoming_limits = Some(limits);
+    let b = Basic::build(&mut w, opts);
+    let wait_rate = *w.ch.pick("c03.pend.wait_rate", &[750u32, 1000, 300]);
+    let mut sc = PendScen { b, limits, pending: Vec::new(), policy: BTreeMap::new(), wait_rate, max_pending_seen: 0, max_buffered_seen: 0 };
+    w.run(&mut sc);
+    if w.violations.is_empty() {
+        // whatever is still undecided when the world ends is dropped: nothing may stay behind
+        for (idx, _, _) in std::mem::take(&mut sc.pending) {
+            if let Some(wt) = w.waiting[idx].take() {
+                w.nodes[wt.node as usize].ep.ignore(wt.incoming);
+            }
+        }
+        let left = w.nodes[sc.b.server as usize].ep.incoming_buffer_bytes();
+        if left != 0 {
+            w.violate("incoming-buffers-not-released", format!("{} bytes are still accounted to pending connection attempts after every attempt was decided", left));
+        }
+    }
+    if w.violations.is_empty() {
+        // attempts that were refused or ignored end in a loss on the client: expected
+        let excused = sc.b.wl.unchecked.clone();
+        for c in w.conns.iter_mut() {
+            let key = if c.side == Side::Client { c.inc } else { c.peer };
+            if excused.contains(&key) {
+                c.lost.clear();
+            }
+        }
+        super::c02::liveness_end_checks(&mut w, &sc.b);
+    }
+    let mut o = RunOut::from_world(&mut w);
+    o.stats.insert("pending_incoming_max", sc.max_pending_seen as f64);
+    o.stats.insert("incoming_buffered_max_bytes", sc.max_buffered_seen as f64);
+    o.config = format!("limits(max_incoming, buffer, buffer_total)={:?} wait_rate={} server={:?} client={:?} net={:?}", limits, wait_rate, sc.b.server_knobs, sc.b.client_knobs, w.net);
+    o
+}
+
 pub fn spec() -> PropSpec {
     PropSpec {
         id: "C03",
@@ -1159,6 +1344,7 @@ pub fn spec() -> PropSpec {
             Family { name: "garbage-datagrams", f: fam_garbage, weight: 25 },
             Family { name: "frame-floods", f: fam_flood, weight: 5 },
             Family { name: "extreme-transport-parameters", f: fam_params, weight: 20 },
+            Family { name: "pending-incoming", f: fam_pending, weight: 10 },
         ],
         quick_worlds: 40_000,
         thorough_worlds: 600_000,
